@@ -2,13 +2,14 @@ import Infretis.Model.Proto
 import Infretis.Model.Template
 import Infretis.Model.TemplateCp2k
 import Infretis.Model.Codec
+import Infretis.Model.CodecUni
 import Infretis.Model.CodecLmp
 import Infretis.Model.CodecBox
 import Infretis.Model.CodecBoxData
 open Infretis.Proto
 
 /-- dispatch over the part models of C19 (each answers `none` for ops that are not its own):
-    `mdp…`/`wfr…` Template, `cp2k…` TemplateCp2k, `g96…`/`xyz…` Codec, `lmp…`/`trr…` CodecLmp, `boxlist/boxabc/boxmat` CodecBox,
+    `mdp…`/`wfr…` Template, `cp2k…` TemplateCp2k, `g96…`/`xyz…` Codec, `…U` CodecUni (complete white space), `lmp…`/`trr…` CodecLmp, `boxlist/boxabc/boxmat` CodecBox,
     `boxdata`/`cp2kbox` CodecBoxData -/
 def handle (toks : List String) : String :=
   match Infretis.Template.handle toks with
@@ -18,6 +19,9 @@ def handle (toks : List String) : String :=
   | some r => r
   | none =>
   match Infretis.Codec.handle toks with
+  | some r => r
+  | none =>
+  match Infretis.CodecUni.handle toks with
   | some r => r
   | none =>
   match Infretis.Lmp.handle toks with
